@@ -50,6 +50,24 @@ func init() {
 		} else {
 			g.fail("imports.MatchFile: expected the string literals \"*\", \".\", \"_\", \"_\", \"test\"; found %q", mf)
 		}
+
+		// scan.go: ScanDir's name filter and scanFiles' special import / suffix
+		sd := g.funcLits(dir, "ScanDir")
+		if len(sd) == 2 {
+			g.emitBytesLit("skip_prefix", "imports.ScanDir: names with this prefix are skipped", sd[0])
+			g.emitBytesLit("go_suffix", "imports.ScanDir: only names with this suffix are scanned", sd[1])
+		} else {
+			g.fail("imports.ScanDir: expected the string literals \"_\", \".go\"; found %q", sd)
+		}
+		sf := g.funcLits(dir, "scanFiles")
+		// expected: "reading %s: %v", `"C"`, "cgo", "*", "_test.go"
+		if len(sf) == 5 && sf[3] == mt0(mt) {
+			g.emitBytesLit("quoted_c", "imports.scanFiles: the import literal that needs the cgo tag", sf[1])
+			g.emitBytesLit("cgo_tag", "imports.scanFiles: the tag that admits it", sf[2])
+			g.emitBytesLit("test_go_suffix", "imports.scanFiles: files whose imports are test imports", sf[4])
+		} else {
+			g.fail("imports.scanFiles: expected the string literals \"reading %%s: %%v\", `\"C\"`, \"cgo\", \"*\", \"_test.go\"; found %q", sf)
+		}
 	}
 }
 
